@@ -32,6 +32,7 @@ TopoConsBend).  Everything is quantified over ALL scenes (node lists, paths, axi
 import AdaptaVerif.Lemmas.TopoConsScan
 import AdaptaVerif.Lemmas.TopoConsScanNO
 import AdaptaVerif.Lemmas.TopoConsGen
+import AdaptaVerif.Lemmas.TopoConsStep
 import AdaptaVerif.Lemmas.TopoConsRewrite
 import AdaptaVerif.Lemmas.TopoConsBend
 import AdaptaVerif.Lemmas.TopoConsNonOverlap
@@ -319,6 +320,43 @@ theorem solve_step_node_stays_off_segment (d : Nat) (bO bC : Node → Node → B
     ∀ q, (n.movedTo d x').r.lo (conj d) ≤ q → q ≤ (n.movedTo d x').r.hi (conj d) →
       0 ≤ gap d (sg.movedTo d x') (n.movedTo d x') q b :=
   AdaptaVerif.Lemmas.TopoConsGen.solve_step_node_stays_off_segment d bO bC nodes segs extra ini fin hini n sg c1 c2 b h1 h2 hn1 hn2 hp1 hp2 hb1 hb2
+
+/-- **Generation + move, end to end.** If a segment's span covers a node's extent across the scan direction, the node is visible from the segment on both of its scan lines (no other node strictly straddling the scan line has its centre between them), the facing corners are not the segment's own end bends and the node centre is on the same side `b` on both scan lines, then - for every order of equal events, any further constraints `extra` and any solver result `fin` - after the move phase of `solve()` the whole facing side of the node is still on side `b` of the segment's line. (Non-vacuity: the example after the theorem in Lemmas/TopoConsStep, the harness's control scene.) -/
+theorem solve_step_visible_pair_safe (d : Nat) (bO bC : Node → Node → Bool)
+    (nodes : List Node) (segs : List Seg) (extra : List AdaptaVerif.Model.Tri.TriConstraint)
+    (ini fin : AdaptaVerif.Model.Tri.Pos)
+    (hini : AdaptaVerif.Spec.Tri.Feasible
+      ((consClosed d bO bC nodes segs).map (fun x => triOf x.1 x.2) ++ extra) ini)
+    (n : Node) (sg : Seg) (hn : n ∈ nodes) (hsg : sg ∈ segs) (hnc : sg.connected n = false)
+    -- the segment's span covers the node's extent across the scan direction
+    (hspanLo : sg.lo d ≤ n.r.lo (conj d) ∧ n.r.lo (conj d) < sg.hi d)
+    (hspanHi : sg.lo d < n.r.hi (conj d) ∧ n.r.hi (conj d) ≤ sg.hi d)
+    -- visible on both scan lines of the node
+    (hvisLo : ∀ m ∈ nodes, m.id ≠ n.id → m.r.lo (conj d) < n.r.lo (conj d) → n.r.lo (conj d) < m.r.hi (conj d) →
+      ¬ ((sg.inter d (n.r.lo (conj d)) < m.r.centre d ∧ m.r.centre d < n.r.centre d) ∨
+         (n.r.centre d < m.r.centre d ∧ m.r.centre d < sg.inter d (n.r.lo (conj d)))))
+    (hvisHi : ∀ m ∈ nodes, m.id ≠ n.id → m.r.lo (conj d) < n.r.hi (conj d) → n.r.hi (conj d) < m.r.hi (conj d) →
+      ¬ ((sg.inter d (n.r.hi (conj d)) < m.r.centre d ∧ m.r.centre d < n.r.centre d) ∨
+         (n.r.centre d < m.r.centre d ∧ m.r.centre d < sg.inter d (n.r.hi (conj d)))))
+    -- the facing corners are not the segment's own end bends
+    (hcornerLo :
+      ¬ (n.id = sg.s.node.id ∧
+          cornerFor d n (n.r.lo (conj d)) (decide (n.r.centre d < sg.inter d (n.r.lo (conj d)))) = sg.s.ri) ∧
+      ¬ (n.id = sg.e.node.id ∧
+          cornerFor d n (n.r.lo (conj d)) (decide (n.r.centre d < sg.inter d (n.r.lo (conj d)))) = sg.e.ri))
+    (hcornerHi :
+      ¬ (n.id = sg.s.node.id ∧
+          cornerFor d n (n.r.hi (conj d)) (decide (n.r.centre d < sg.inter d (n.r.hi (conj d)))) = sg.s.ri) ∧
+      ¬ (n.id = sg.e.node.id ∧
+          cornerFor d n (n.r.hi (conj d)) (decide (n.r.centre d < sg.inter d (n.r.hi (conj d)))) = sg.e.ri))
+    -- the node centre is on the same side `b` of the segment's line on both scan lines
+    (b : Bool) (hbLo : b = decide (n.r.centre d < sg.inter d (n.r.lo (conj d))))
+    (hbHi : b = decide (n.r.centre d < sg.inter d (n.r.hi (conj d)))) :
+    let x' := AdaptaVerif.Model.Tri.moveStep
+      ((consClosed d bO bC nodes segs).map (fun x => triOf x.1 x.2) ++ extra) ini fin
+    ∀ q, (n.movedTo d x').r.lo (conj d) ≤ q → q ≤ (n.movedTo d x').r.hi (conj d) →
+      0 ≤ gap d (sg.movedTo d x') (n.movedTo d x') q b :=
+  AdaptaVerif.Lemmas.TopoConsStep.solve_step_visible_pair_safe d bO bC nodes segs extra ini fin hini n sg hn hsg hnc hspanLo hspanHi hvisLo hvisHi hcornerLo hcornerHi b hbLo hbHi
 
 /-! ### bend constraints -/
 
